@@ -76,6 +76,16 @@ Theorem C03_parser_reports_lexer_positions :
 Proof. exact parser_reports_lexer_positions. Qed.
 Print Assumptions C03_parser_reports_lexer_positions.
 
+(* Table theorem 2 (regenerated on every check): every type assertion without comma-ok in the
+   packages behind ParseProgram (a failing one would escape ParseProgram as a runtime panic) is
+   the deliberate re-panic of a recover(), or on a node the parser builds with that type, or
+   protected by the resolver's check of the same un-reassigned argument expression (the slot
+   typing being C16_sound). *)
+Theorem C03_unchecked_assertions_classified :
+  forallb assert_ok unchecked_asserts = true /\ (2 <=? length unchecked_asserts)%nat = true.
+Proof. exact unchecked_assertions_classified. Qed.
+Print Assumptions C03_unchecked_assertions_classified.
+
 (* The model's token numbers and keyword table are those of lexer/token.go (regenerated). *)
 Theorem C03_token_numbers_agree : gen_tokens = model_tokens.
 Proof. exact token_numbers_agree. Qed.
